@@ -2,6 +2,9 @@ package queuechk
 
 import (
 	"fmt"
+	"runtime"
+	"sync"
+	"sync/atomic"
 	"testing"
 
 	"github.com/sarchlab/akita/v5/hooking"
@@ -332,4 +335,216 @@ func TestC11Port(t *testing.T) {
 
 	kit.SetChecks(30_000, 150_000)
 	rapid.Check(t, func(rt *rapid.T) { c := genC11(rt); run(rt, c) })
+}
+
+// ---------------------------------------------------------------------------
+// Concurrent use (parallel engine: the owner and the connection work on the
+// same port from different goroutines).
+
+type c11cCase struct {
+	InCap  int `json:"in_cap"`
+	OutCap int `json:"out_cap"`
+	Msgs   int `json:"msgs"`
+	Yield  int `json:"yield"` // the retrievers yield the processor after this many empty polls (0 = never)
+}
+
+// c11cStub counts notifications; each counter is written by exactly one
+// goroutine during a run (the one that makes the port call which notifies).
+type c11cStub struct {
+	hooking.HookableBase
+	*messaging.PortOwnerBase
+	recv, free, avail, send int
+}
+
+func (c *c11cStub) Name() string                   { return "Stub" }
+func (c *c11cStub) NotifyRecv(messaging.Port)      { c.recv++ }
+func (c *c11cStub) NotifyPortFree(messaging.Port)  { c.free++ }
+func (c *c11cStub) PlugIn(messaging.Port)          {}
+func (c *c11cStub) Unplug(messaging.Port)          {}
+func (c *c11cStub) NotifyAvailable(messaging.Port) { c.avail++ }
+func (c *c11cStub) NotifySend()                    { c.send++ }
+
+// c11cDir is one direction of the port driven by a pusher and a popper
+// goroutine. All slices are indexed by message number 1..n.
+type c11cDir struct {
+	name      string
+	capacity  int
+	canPush   func() bool
+	push      func(id uint64)
+	pop       func() messaging.Msg
+	pushNote  *int // notification a push into an empty buffer must raise (counted on the pusher's goroutine)
+	popNote   *int // notification a pop from a full buffer must raise (counted on the popper's goroutine)
+	pushNoted []bool
+	fullAfter []bool // pusher saw "cannot push" after pushing k and before pushing k+1
+	nilBefore []bool // popper saw an empty buffer after popping k-1 and before popping k
+	popNoted  []bool
+	orderErr  string
+	pushDone  atomic.Bool // set when the pusher returned (normally or by panic)
+}
+
+func (d *c11cDir) pusher(n int) {
+	defer d.pushDone.Store(true)
+	for k := 1; k <= n; k++ {
+		for !d.canPush() {
+			// size == capacity at that instant and this goroutine is the only pusher
+			d.fullAfter[k-1] = true
+			runtime.Gosched()
+		}
+		before := *d.pushNote
+		d.push(uint64(k))
+		d.pushNoted[k] = *d.pushNote > before
+	}
+}
+
+func (d *c11cDir) popper(n, yield int) {
+	sawNil, polls := false, 0
+	for k := 1; k <= n; {
+		before := *d.popNote
+		finished := d.pushDone.Load() // read before the pop: every push happened before it
+		m := d.pop()
+		if m == nil && finished {
+			d.orderErr = fmt.Sprintf("%s: the pusher has returned and the buffer is empty, but only %d of %d messages were popped", d.name, k-1, n)
+			return
+		}
+		if m == nil {
+			sawNil = true
+			polls++
+			if yield > 0 && polls%yield == 0 {
+				runtime.Gosched()
+			}
+			continue
+		}
+		if m.Meta().ID != uint64(k) {
+			d.orderErr = fmt.Sprintf("%s: popped message %d, want %d", d.name, m.Meta().ID, k)
+			return
+		}
+		d.nilBefore[k] = sawNil
+		d.popNoted[k] = *d.popNote > before
+		sawNil = false
+		k++
+	}
+}
+
+// TestC11PortConcurrent drives both directions of one port from four
+// goroutines and judges the recorded per-goroutine observations with two
+// implications that hold in every interleaving of a linearizable bounded FIFO:
+//
+//	(E) the popper got an empty answer after message k-1 and before message k
+//	    => the buffer was empty when k was pushed => that push must have notified;
+//	(F) the only pusher saw "cannot push" after pushing k => the buffer held
+//	    k-cap+1..k and nothing is pushed until it frees => the pop of k-cap+1 took
+//	    it from a full buffer => that pop must have notified.
+//
+// Nothing is concluded from timing; the poppers poll, so the run always ends.
+func TestC11PortConcurrent(t *testing.T) {
+	s := kit.Begin(t, "C11", "port-concurrent",
+		"one messaging.NewPort port (capacities 1-5) used by four goroutines at once: owner sends n messages (spinning on CanSend), connection polls RetrieveOutgoing; connection delivers n messages (spinning on CanDeliver), owner polls RetrieveIncoming; n in 5k-40k, poppers yield every 0/1/8/64 empty polls. "+
+			"Schedule-dependent search (Go scheduler interleavings only); oracle sound for every interleaving: per-direction FIFO with no loss/duplication; (E) an empty answer seen by the popper between messages k-1 and k implies the push of k hit an empty buffer, so its NotifySend / NotifyRecv must have been raised during that push; "+
+			"(F) 'cannot push' seen by the single pusher after pushing k implies the pop of message k-cap+1 freed a full buffer, so its NotifyPortFree / NotifyAvailable must have been raised during that pop. Non-trivial: both implications had a true premise in both directions")
+	defer s.End()
+	s.Assume("explores only the interleavings the Go runtime produces; a clean run is no proof for other schedules")
+
+	run := func(f kit.Failer, c c11cCase) {
+		stub := &c11cStub{PortOwnerBase: messaging.NewPortOwnerBase()}
+		p := messaging.NewPort(stub, c.InCap, c.OutCap, c11PortName)
+		p.SetConnection(stub)
+		n := c.Msgs
+		mk := func() []bool { return make([]bool, n+2) }
+		out := &c11cDir{name: "outgoing", capacity: c.OutCap, canPush: p.CanSend, pop: p.RetrieveOutgoing,
+			push: func(id uint64) {
+				p.Send(messaging.MsgMeta{ID: id, Src: c11PortName, Dst: c11Remote})
+			},
+			pushNote: &stub.send, popNote: &stub.free, pushNoted: mk(), fullAfter: mk(), nilBefore: mk(), popNoted: mk()}
+		in := &c11cDir{name: "incoming", capacity: c.InCap, canPush: p.CanDeliver, pop: p.RetrieveIncoming,
+			push: func(id uint64) {
+				p.Deliver(messaging.MsgMeta{ID: id, Src: c11Remote, Dst: c11PortName})
+			},
+			pushNote: &stub.recv, popNote: &stub.avail, pushNoted: mk(), fullAfter: mk(), nilBefore: mk(), popNoted: mk()}
+
+		var wg sync.WaitGroup
+		var panics [4]string
+		for i, fn := range []func(){
+			func() { out.pusher(n) }, func() { out.popper(n, c.Yield) },
+			func() { in.pusher(n) }, func() { in.popper(n, c.Yield) },
+		} {
+			wg.Add(1)
+			go func(i int, fn func()) {
+				defer wg.Done()
+				if ok, sig, msg := kit.Guard(fn); !ok {
+					panics[i] = sig + ": " + msg
+				}
+			}(i, fn)
+		}
+		wg.Wait()
+		for _, pm := range panics {
+			if pm != "" {
+				// a panicking role can leave its partner spinning only if it is the
+				// popper; poppers never panic on their own, pushers panic only when
+				// the port refuses a push right after Can* said yes
+				s.Fail(f, c, "concurrent-panic", "%s", pm)
+				return
+			}
+		}
+
+		var eEdges, fEdges [2]int
+		for di, d := range []*c11cDir{out, in} {
+			if d.orderErr != "" {
+				s.Fail(f, c, "concurrent-order:"+d.name, "%s", d.orderErr)
+				return
+			}
+			for k := 1; k <= n; k++ {
+				if d.nilBefore[k] {
+					eEdges[di]++
+					if !d.pushNoted[k] {
+						s.Fail(f, c, "concurrent-missing-notify-on-empty:"+d.name,
+							"%s: the popper saw the buffer empty after message %d and before message %d, so message %d was pushed into an empty buffer, but that push raised no notification (cap %d, %d messages)", d.name, k-1, k, k, d.capacity, n)
+						return
+					}
+				}
+				if d.fullAfter[k] {
+					j := k - d.capacity + 1
+					fEdges[di]++
+					if j >= 1 && !d.popNoted[j] {
+						s.Fail(f, c, "concurrent-missing-notify-on-free:"+d.name,
+							"%s: the pusher saw the buffer full after pushing message %d (cap %d), so the pop of message %d freed a full buffer, but that pop raised no notification", d.name, k, d.capacity, j)
+						return
+					}
+				}
+			}
+		}
+		classes := []string{fmt.Sprintf("incap=%d", c.InCap), fmt.Sprintf("outcap=%d", c.OutCap)}
+		for di, nm := range []string{"out", "in"} {
+			if eEdges[di] > 0 {
+				classes = append(classes, nm+":empty-seen-then-push")
+			}
+			if fEdges[di] > 0 {
+				classes = append(classes, nm+":full-seen-then-pop")
+			}
+		}
+		s.AddExtra("empty_edges_judged", eEdges[0]+eEdges[1])
+		s.AddExtra("full_edges_judged", fEdges[0]+fEdges[1])
+		s.Note(c, eEdges[0] > 0 && eEdges[1] > 0 && fEdges[0] > 0 && fEdges[1] > 0, classes...)
+	}
+
+	var c c11cCase
+	if ok, err := kit.LoadReplay("C11", "port-concurrent", &c); ok {
+		if err != nil {
+			t.Fatal(err)
+		}
+		run(t, c)
+		return
+	} else if kit.ReplayMode() {
+		t.Skip()
+	}
+
+	kit.SetChecks(40, 400)
+	rapid.Check(t, func(rt *rapid.T) {
+		c := c11cCase{
+			InCap:  rapid.IntRange(1, 5).Draw(rt, "incap"),
+			OutCap: rapid.IntRange(1, 5).Draw(rt, "outcap"),
+			Msgs:   rapid.SampledFrom([]int{5_000, 20_000, 40_000}).Draw(rt, "msgs"),
+			Yield:  rapid.SampledFrom([]int{0, 1, 8, 64}).Draw(rt, "yield"),
+		}
+		run(rt, c)
+	})
 }
